@@ -289,6 +289,28 @@ def pair_case(eg, i, cplx):
         for x_ in pat[1:]:
             e = dict(op=o2, x=e, y=x_)
         return e, None
+    if o == "longsum":
+        # long sums (more than 8 / 16 terms, odd and even counts): sum([...]), +/- chains, and two shorter sums added together -
+        # pairwise / blocked accumulation schemes only show past their block size
+        nt = r.choice([9, 10, 11, 12, 13, 15, 17, 18, 33])
+        m_, n_ = r.randint(1, 3), r.randint(1, 3)
+        terms = []
+        for q in range(nt):
+            kq = ["Dense", "Diag", "Scal", "Dense", "Tri", "Sparse", "Ident", "Dense"][q % 8]
+            tq = T.rooted(gen, kq, m_, n_ if kq in ("Dense", "Sparse") else m_, cplx=cplx, depth=0)
+            if tq is None or T.shape(tq) != (m_, n_):
+                tq = T.rooted(gen, "Dense", m_, n_, cplx=cplx, depth=0)
+            terms.append(leaf(tq))
+        form = r.choice(["sum", "chain", "two"])
+        if form == "sum":
+            return dict(op="sum", l=terms, long=True), None
+        if form == "chain":
+            e = terms[0]
+            for x_ in terms[1:]:
+                e = dict(op=r.choice(["add", "add", "sub"]), x=e, y=x_)
+            return dict(e, long=True), None
+        h = nt // 2
+        return dict(op="add", x=dict(op="sum", l=terms[:h]), y=dict(op="sum", l=terms[h:]), long=True), None
     if o == "znum":
         # the NUMBER zero as an operand of + / - on either side: 0 + A, A + 0, A - 0 are A, and 0 - A is -A
         a = T.rooted(gen, k1, None, None, cplx=cplx, depth=1)
@@ -564,7 +586,7 @@ def run(ctx):
     ops_u = ["mul", "neg", "div", "add", "sub", "dot", "kron", "kronsum", "kron3r", "kron3l", "block", "add_bad", "dot_bad", "add_zarr", "add_zarr_bad"]
     eg.combos = [(o_, k_) for o_ in ops_u for k_ in ALLK] + [("flat_" + o_, None) for o_ in ("add", "dot", "kron", "kronsum") for _ in range(4)] + \
                 [(f"sl_{o_}_{ka}_{kb}", None) for o_ in ("kron", "kronsum", "dot", "add") for ka in ("Diag", "Ident", "Scal", "Perm") for kb in ("Diag", "Ident", "Scal", "Perm")] + \
-                [("share_" + o_, None) for o_ in ("block", "sum", "dot", "kron") for _ in range(3)] + [("znum", k_) for k_ in ("Dense", "Sum", "Prod", "Kron", "Diag", "Ident") for _ in range(3)] + [("sl_dot_Perm_Perm", None)] * 3
+                [("share_" + o_, None) for o_ in ("block", "sum", "dot", "kron") for _ in range(3)] + [("znum", k_) for k_ in ("Dense", "Sum", "Prod", "Kron", "Diag", "Ident") for _ in range(3)] + [("sl_dot_Perm_Perm", None)] * 3 + [("longsum", None)] * 6
     rnd.shuffle(eg.combos)
     pc_i = 0   # position in the (combinator x root kind) sweep: 198 combinations, all visited in every run
     while len(cases) < n and tries < 30 * n:
@@ -580,7 +602,7 @@ def run(ctx):
             node = pc[0]
         else:
             node, _ = eg.expr(rnd.randint(1, ctx.budget(3, 4)), None, cplx)
-        if size(node) > ctx.budget(12, 30):
+        if size(node) > ctx.budget(12, 30) and not node.get("long"):
             continue
         fix_arrays(node, present)
         trees_ = all_trees(node, [])
